@@ -518,6 +518,14 @@ def subscript(ip: Any, obj: Any, idx: Any) -> Any:
             return SList(obj.shape, lambda j: old(j + lo), z3.If(hi > lo, hi - lo, z3.IntVal(0)))
         k = norm_index(ip, idx, obj.length, "list")
         return obj.getf(k)
+    import enum as _enum
+
+    if isinstance(obj, type) and issubclass(obj, _enum.Enum) and isinstance(idx, SStr):
+        # EnumClass[name] with a symbolic name: the member of that name (aliases included), else KeyError
+        for nm, member in obj.__members__.items():
+            if S.fork(V.eq(idx, nm)):
+                return member
+        raise raise_(ip, KeyError, idx)
     if isinstance(obj, SMap):
         if not S.fork(obj.has(idx)):
             raise raise_(ip, KeyError, idx)
